@@ -20,10 +20,15 @@ import (
 // grammar of the property: cut at the first '#'; the fields are the maximal
 // runs of bytes other than space and tab; there are at least two of them; the
 // first is an address; every other one is a name.
-func c07RecordExact(c *Ctx) bool {
+func c07RecordExact(c *Ctx) (okExact bool) {
+	defer recoverUnsupported(c, &okExact, "c07RecordExact")
 	const rule = "C07.record-exact"
 	f := c.fn("hostsfile", "Record.UnmarshalText")
 	if f == nil || len(f.Params) != 2 {
+		return false
+	}
+	if th := lengthThresholds(f, 16, "ValidateDomainName", "ValidateHostname"); len(th) > 0 {
+		c.L.Notef("UnmarshalText treats long lines differently (%s): the lengths evaluated do not cover that; structural rules used instead", th[0])
 		return false
 	}
 	lengths := []int{0, 1, 2, 3, 4, 5, 6, 7, 8, 9}
